@@ -177,6 +177,12 @@ func walCases(c *common.Ctx, cf *common.CaseFile) {
 			}
 			frames = append(frames, [2]uint32{uint32(1 + r.Intn(20)), commit})
 		}
+		if i == n-1 || i == n-2 {
+			// a frame naming page 0 between valid ones (checksums intact): the valid prefix ends before it
+			be = i == n-1
+			nf = 4
+			frames = [][2]uint32{{1, 0}, {2, 2}, {0, 2}, {3, 3}}
+		}
 		if i < 16 {
 			// fixed cases first: one salt word of one frame altered, everything else (the checksum chain does not
 			// cover the salts) intact - for both words, both checksum byte orders, every frame position
@@ -187,6 +193,8 @@ func walCases(c *common.Ctx, cf *common.CaseFile) {
 		b := buildWAL(r, ps, be, frames)
 		kind := "valid"
 		switch x := r.Intn(100); {
+		case i >= n-2:
+			kind = "frame-naming-page-0"
 		case i >= 16 && i < 16+len(oddPageSizes):
 			kind = fmt.Sprintf("odd-page-size-%d", oddPageSizes[i-16])
 			b = oddPageSizeWAL(r, oddPageSizes[i-16], i&1 == 1)
@@ -708,6 +716,9 @@ func Run(c *common.Ctx) error {
 	if err := emptyDatabaseJournal(c); err != nil {
 		return err
 	}
+	if err := walOddCompany(c); err != nil {
+		return err
+	}
 	c.Sample(map[string]any{"wal_case": "header + k frames, then one of: truncation, bit flip, stale-generation salts, zeroed region, bad magic/version, zero file, random bytes"})
 	return nil
 }
@@ -958,6 +969,121 @@ func emptyDatabaseJournal(c *common.Ctx) error {
 				node.Close()
 			}
 			_ = os.RemoveAll(dir)
+		}
+	}
+	return nil
+}
+
+// walOddCompany: well-formed logs (header, salts and checksums all valid) that are no use to the database they lie next
+// to. (a) a database file that holds no page yet (SQLite deletes such a log); (b) a log with another page size than the
+// database's; (c) a log in which a frame names page 0 - SQLite's walDecodeFrame ends the valid prefix there. Open must
+// not panic, hang or fail, and the database is the committed one (for (c): with the transactions before that frame).
+func walOddCompany(c *common.Ctx) error {
+	for i := 0; i < 6; i++ {
+		r := c.Rng.Fork()
+		be := i&1 == 1
+		ps := 512
+		var dir, dbDir, kind string
+		var pre, want *lfs.Image
+		var h *hist.Runner
+		if i < 2 {
+			kind = "empty-database-valid-log"
+			d, err := os.MkdirTemp(c.OutDir, "c17o-")
+			if err != nil {
+				return err
+			}
+			defer os.RemoveAll(d)
+			dir, dbDir = d, filepath.Join(d, "dbs", "db")
+			_ = os.MkdirAll(filepath.Join(dbDir, "ltx"), 0o755)
+			_ = os.WriteFile(filepath.Join(dbDir, "database"), nil, 0o644)
+			pre = &lfs.Image{}
+			want = pre
+		} else {
+			var err error
+			h, err = hist.New(c, r.Fork(), hist.Config{PageSize: ps, AllowWAL: true, ForceWAL: true})
+			if err != nil {
+				if h != nil {
+					h.Close()
+				}
+				return err
+			}
+			for _, st := range []hist.Step{
+				{Op: "rtx", Writes: map[uint32]uint64{1: 1, 2: 2, 3: 3}, NewSize: 3, ToWAL: true},
+				{Op: "wtx", Frames: [][2]uint64{{2, 12}}, NewSize: 3},
+				{Op: "appckpt", CkptMode: 3},
+			} {
+				h.Exec(st)
+			}
+			pre = h.Ref.Clone()
+			want = pre
+			h.Node.Close()
+			h.Node = nil
+			dir, dbDir = h.Dir, h.DBDir()
+			_ = os.RemoveAll(filepath.Join(dbDir, "ltx")) // no transaction log: the checkpoint at Open decides alone
+		}
+		var wal []byte
+		switch {
+		case i < 2:
+			wal = buildWAL(r, 4096, be, [][2]uint32{{1, 1}})
+		case i < 4:
+			kind = "log-with-another-page-size"
+			wal = buildWAL(r, 1024, be, [][2]uint32{{1, 0}, {2, 0}, {1, 3}})
+		default:
+			kind = "frame-naming-page-0"
+			wal = buildWAL(r, ps, be, [][2]uint32{{2, 0}, {1, 3}, {0, 3}, {3, 0}, {1, 3}})
+			if vf, _, ok := lfs.ReadWALValid(wal); ok && len(vf) == 2 {
+				img := pre.Clone()
+				img.Pages[1], img.Pages[0] = vf[0].Data, vf[1].Data
+				want = img
+			} else {
+				return fmt.Errorf("reference reader: %d frames before the frame naming page 0", len(vf))
+			}
+		}
+		_ = os.WriteFile(filepath.Join(dbDir, "wal"), wal, 0o644)
+		var node *lfs.Node
+		var oerr error
+		done := make(chan struct{})
+		var pan string
+		go func() {
+			defer close(done)
+			pan = common.Try(func() { node, oerr = lfs.Open(dir, true) })
+		}()
+		hung := false
+		select {
+		case <-done:
+		case <-time.After(10 * time.Second):
+			hung = true
+		}
+		c.Evaluations++
+		c.Distinct(fmt.Sprintf("wal-odd-company:%s:%v", kind, be))
+		rep := map[string]any{"kind": "wal-odd-company", "class": kind, "big_endian": be, "wal": wal}
+		key := "C17:wal-odd-company:" + kind
+		switch {
+		case hung:
+			c.Violate(key+":hang", "Open did not return within 10 s", rep)
+			return nil
+		case pan != "" || (oerr != nil && strings.Contains(oerr.Error(), "panicked")):
+			c.Violate(key+":panic", fmt.Sprintf("Open panicked on a well-formed %d-byte log (%s): %s %v", len(wal), kind, pan, oerr), rep)
+		case oerr != nil:
+			c.Violate(key+":open", fmt.Sprintf("Open failed on a well-formed log (%s): %v", kind, oerr), rep)
+		default:
+			got, _ := lfs.ReadImage(dbDir)
+			if got == nil {
+				got = &lfs.Image{}
+			}
+			if len(want.Pages) == 0 && len(got.Pages) != 0 {
+				c.Violate(key+":image", fmt.Sprintf("Open made a database of %d pages out of a log next to an empty database file", len(got.Pages)), rep)
+			} else if len(want.Pages) > 0 {
+				if eq, why := got.Equal(want); !eq {
+					c.Violate(key+":image", "Open did not leave the committed database: "+why, rep)
+				}
+			}
+		}
+		if node != nil {
+			node.Close()
+		}
+		if h != nil {
+			h.Close()
 		}
 	}
 	return nil
